@@ -268,6 +268,21 @@ impl HttpEngine {
     }
 }
 
+/// The same valid instance may travel in several equivalent forms: media type with a charset
+/// parameter (RFC 9110 allows parameters; the unchanged server accepts them), pretty-printed body.
+/// The choice is a pure function of the instance.
+fn transport_variant(input: &Value) -> (&'static str, String) {
+    let body = input.to_string();
+    let mut h = Fnv::new();
+    h.str(&body);
+    match h.finish() % 8 {
+        0 => ("application/json; charset=utf-8", body),
+        1 => ("application/json;charset=UTF-8", body),
+        2 => ("application/json", serde_json::to_string_pretty(input).unwrap_or(body)),
+        _ => ("application/json", body),
+    }
+}
+
 /// consecutive segments of one departure must be servable in order with minimal shunting
 fn departures_servable(inst: &Inst) -> bool {
     for d in &inst.departures {
@@ -417,7 +432,10 @@ impl Engine for HttpEngine {
                     b.wait();
                     let resp = match &r {
                         Req::Health => http(port, "GET", "/health", None, None, timeout),
-                        Req::Valid { input, .. } => http(port, "POST", "/solve", Some("application/json"), Some(&input.to_string()), timeout),
+                        Req::Valid { input, .. } => {
+                            let (ct, body) = transport_variant(input);
+                            http(port, "POST", "/solve", Some(ct), Some(&body), timeout)
+                        }
                         Req::Malformed { body, ctype, .. } => http(port, "POST", "/solve", ctype.as_deref(), Some(body), timeout),
                         Req::Invalid { body, .. } => http(port, "POST", "/solve", Some("application/json"), Some(body), timeout),
                     };
